@@ -16,6 +16,42 @@ TRUST = ("Trusted base: numpy/scipy/PyWavelets numerics used by the reference or
 
 # id -> (technique, level text, design ref)
 CHECKS = {
+    "C01": ("reference-model monitor: inner-product adjoint identity and dense M_{A.H} == M_A^H "
+            "on the real operator objects, over generated operator classes, parameter grids "
+            "and expression trees; numba bounds-check sanitizer in the thorough tier",
+            "Every generated operator (33 leaf classes incl. MRI factories, random trees of "
+            "depth <= 4) is built from the working tree and its real .H object is tested with "
+            "<Ax,y> = <x,A^H y> on Gaussian and sparse complex pairs at 1e-10, with swapped "
+            "shapes, A.H.H = A, and, for operators with <= 48 unknowns, entry-wise equality of "
+            "the dense matrices (all x, y for that configuration).",
+            "DESIGN.md section 4, C01"),
+    "C02": ("invariant hooks on Linop.apply / Prox.__call__ (byte-level non-mutation of inputs "
+            "and captured arrays at every application, incl. inside solver runs), "
+            "before/after monitors on the public array functions, C-linearity and "
+            "history-determinism oracles, fresh-interpreter dtype-history check",
+            "Class-level hooks observe every operator / prox application of the run and compare "
+            "blake2b digests of the input and of all captured arrays before and after; 39 "
+            "public functions are called with generated (also read-only) arguments; linearity "
+            "A(ax+y) = aA(x)+A(y) with a = i and random complex a at 1e-10; repeated "
+            "application before/after .H/.N are taken and applied at 1e-12.",
+            "DESIGN.md section 4, C02"),
+    "C03": ("reference-model monitor: numpy-only evaluation of the tree description "
+            "(np.split/np.concatenate as the definition of stacking along an axis) vs the real "
+            "algebra; exact-output-shape hook on every Linop.apply; misfit operands must raise",
+            "Random expression trees over all shape-adaptable leaves with stacking axes in "
+            "[-ndim, ndim) and None are compared with an independent matrix-algebra evaluator "
+            "at 1e-10 on Gaussian data and on all unit vectors for <= 64 inputs; every node's "
+            "advertised shapes are compared with independently predicted ones; the apply hook "
+            "checks exact output shape at every (nested) application; 11 classes of misfit "
+            "operand sets must be rejected at construction.",
+            "DESIGN.md section 4, C03"),
+    "C04": ("reference-model monitor: real A.N vs real A.H(A(.)) on complex data, exhaustive "
+            "1-D block settings, Toeplitz NUFFT normal within the stated accuracy, PSD check",
+            "A.N is compared with A.H(A x) at 1e-10 for all leaf classes, all 1-D block "
+            "(size, stride) settings up to N = 8/10 and random 2-D/3-D ones (overlap, tiling, "
+            "gaps, non-dividing), trees, and at 2*eps(oversamp, width) for the Toeplitz NUFFT "
+            "normal; <A.N x, x> must be real non-negative.",
+            "DESIGN.md section 4, C04"),
     "C05": ("reference-model monitor: explicit DFT-matrix oracle on generated shapes/axes/"
             "center/norm/oshape/dtype, plus round-trip, Parseval and dtype postconditions",
             "Every generated configuration is executed through the real fft/ifft (and linop.FFT/"
